@@ -34,6 +34,7 @@ type tcase struct {
 	Imports []imp  `json:"imports"`
 }
 type mismatch struct {
+	N      int    `json:"n"`
 	Class  string `json:"class"`
 	Text   string `json:"text"`
 	Detail string `json:"detail"`
@@ -174,7 +175,7 @@ func main() {
 		total++
 		text := render(&c)
 		report := func(class, detail string) {
-			_ = enc.Encode(mismatch{Class: class, Text: text, Detail: detail})
+			_ = enc.Encode(mismatch{N: total - 1, Class: class, Text: text, Detail: detail})
 		}
 		want := make([]string, len(c.Imports))
 		for i, im := range c.Imports {
